@@ -1389,15 +1389,21 @@ def c15_poser(inp):
     import itertools
     rng = np.random.RandomState(int(inp.get("seed", 16)))
     y = np.zeros((64, 3))
-    lists = [(), ("F",), ("S",), ("F", "S"), ("S", "F"), ("F", "F")]
+    from pyoma2.algorithms import EFDD, SSIdat
+    from pyoma2.algorithms.data.result import EFDDResult
+    # F / E: FDD and its subclass EFDD; D / S: SSIdat and its subclass SSIcov - 'identical types' means the same class, not a subclass
+    lists = [(), ("F",), ("S",), ("E",), ("D",), ("F", "S"), ("S", "F"), ("F", "F"), ("E", "S"), ("F", "D")]
+    mk = {"F": lambda n_: FDD(name=n_, nxseg=16), "E": lambda n_: EFDD(name=n_, nxseg=16), "S": lambda n_: SSIcov(name=n_, br=2, ordmax=4),
+          "D": lambda n_: SSIdat(name=n_, br=2, ordmax=4)}
+    rs = {"F": FDDResult, "E": EFDDResult, "S": SSIResult, "D": SSIResult}
 
     def build(types, states):
         st = SingleSetup(y.copy(), 10.0)
         algs = []
         for i, (t, s_) in enumerate(zip(types, states)):
-            a = FDD(name=f"a{i}", nxseg=16) if t == "F" else SSIcov(name=f"a{i}", br=2, ordmax=4)
+            a = mk[t](f"a{i}")
             if s_ >= 1:
-                a.result = (FDDResult if t == "F" else SSIResult)()
+                a.result = rs[t]()
             if s_ == 2:
                 a.result.Fn = np.array([1.0])
             algs.append(a)
@@ -1411,7 +1417,8 @@ def c15_poser(inp):
         for combo in itertools.product(lists, repeat=n):
             cases.append(combo)
     rng.shuffle(cases)
-    cases = cases[: int(inp.get("cases", 250))] + [(("F", "S"),) * 4, (("F", "S"), ("F", "S"), ("S", "F"), ("F", "S"))]
+    cases = cases[: int(inp.get("cases", 400))] + [(("F", "S"),) * 4, (("F", "S"), ("F", "S"), ("S", "F"), ("F", "S")),
+                                                    (("F",), ("E",)), (("E",), ("F",)), (("D",), ("S",)), (("F", "D"), ("E", "S")), (("E", "S"), ("E", "S"), ("F", "S"))]
     n_checked = 0
     for combo in cases:
         for variant in range(3):
@@ -2159,7 +2166,8 @@ def c08_meta(inp):
             except Exception:      # noqa: BLE001
                 continue        # the untransformed run itself fails on this data set (not a covariance statement): guarded case
             # (a) gain: a power of two scales every floating-point operation exactly
-            for gain in (2.0 ** -20, 2.0 ** 20, 3.7e-6, 4.2e5):
+            # (the property ranges over every data set and gains in [1e-6, 1e6]: a record of r.m.s. 1e-4 at gain 1e-6 is 2^-34 here)
+            for gain in (2.0 ** -20, 2.0 ** 20, 2.0 ** -34, 2.0 ** 30, 3.7e-6, 4.2e5):
                 exact = float(np.log2(gain)).is_integer()
                 try:
                     got = run(kind, y * gain, fs, sel)
@@ -2195,7 +2203,7 @@ def c08_meta(inp):
             err = _c08_same_tables(want, got, 1e-5, f"{kind}: channels permuted {perm.tolist()}")
             if err:
                 return {"reproduced": True, "detail": err}
-    return {"reproduced": False, "detail": f"{ntr} data sets x 8 algorithm variants: pole tables and extracted modes covariant under gain (2^-20, 2^20, 3.7e-6, 4.2e5), time unit (2^-5, 2^6) and a channel permutation; shapes unit-normalised"}
+    return {"reproduced": False, "detail": f"{ntr} data sets x 8 algorithm variants: pole tables and extracted modes covariant under gain (2^-34 .. 2^30 exact, 3.7e-6, 4.2e5), time unit (2^-5, 2^6) and a channel permutation; shapes unit-normalised"}
 
 
 DRIVERS = {"c08_meta": c08_meta, "c17_factor": c17_factor, "c17_fd": c17_fd, "c03_exact": c03_exact, "c05_exact": c05_exact, "c01_exact": c01_exact, "c01_modal": c01_modal, "c19_geo": c19_geo, "c15_gating": c15_gating, "c15_poser": c15_poser, "c11_plscf_findmin": c11_plscf_findmin, "c11_mpe": c11_mpe, "c06_fdd": c06_fdd, "c20_plots": c20_plots, "c18_indicators": c18_indicators, "c13_sdest": c13_sdest, "c04_preger": c04_preger, "c03_split": c03_split, "c14_sequences": c14_sequences, "c16_dialog": c16_dialog, "c02_merge": c02_merge, "c09_run": c09_run, "c10_run": c10_run, "c10_fn": c10_fn}
